@@ -736,7 +736,12 @@ func (m *model) layout(r *core.Rand, npk int) {
 		if f.grp != nil {
 			// the duplicate sits at the top level: a shorter path than main's
 			d.role = "ghost-outer"
-			d.first = r.Chance(1, 3)
+			// declared after the embedded struct (the plain shadowing case). Declared BEFORE it, the permission-less
+			// field is the first to claim the column and gorm keeps it (the embedded writable field is ignored):
+			// which of two fields owns a column is not fixed by the statement, so that order is not generated
+			// (the draw stays, so the streams of the other cases do not move)
+			d.first = false
+			r.Chance(1, 3)
 			tags = append(tags, core.Pick(r, ghostTags))
 			if f.col != natural(f) || r.Chance(1, 3) {
 				tags = append(tags, "column:"+f.col)
